@@ -664,7 +664,7 @@ def build_case(cid, seed):
     inserted = []
     for _ in range(rnd.choice([0, 1, 1, 2, 3])):
         kind = rnd.choice(['bad_code', 'too_long', 'missing_required', 'unknown_segment', 'too_many', 'trailer', 'trailing_empty',
-                           'sub_elements'])
+                           'sub_elements', 'composite_multi', 'composite_multi', 'multi_in_segment'])
         if kind == 'bad_code':
             c2 = [(k, i) for k in body for i in simple_slots(k, lambda c, v: v != '' and bool(c.valid_codes))]
             if c2:
@@ -713,6 +713,26 @@ def build_case(cid, seed):
             if c2:
                 k, i = rnd.choice(c2)
                 segs[k][1][i] = [segs[k][1][i][0], special(), '']
+        elif kind == 'composite_multi':
+            # errors in two or more DIFFERENT components of one composite element
+            c2 = []
+            for k in body:
+                node = nodes[k]
+                for i, c in enumerate(getattr(node, 'children', [])):
+                    if c.is_composite() and i < len(segs[k][1]) and len(c.children) >= 2 and any(v != '' for v in segs[k][1][i]):
+                        c2.append((k, i, len(c.children)))
+            if c2:
+                k, i, n = rnd.choice(c2)
+                comp = list(segs[k][1][i]) + [''] * (n - len(segs[k][1][i]))
+                for j in rnd.sample(range(n), rnd.randint(2, min(3, n))):
+                    comp[j] = clean((comp[j] or 'A') + rnd.choice(['X' * 90, '<b>' * 30]), delims)
+                segs[k][1][i] = comp
+        elif kind == 'multi_in_segment':
+            ks = [k for k in body if len(simple_slots(k, lambda c, v: v != '')) >= 2]
+            if ks:
+                k = rnd.choice(ks)
+                for i in rnd.sample(simple_slots(k, lambda c, v: v != ''), 2):
+                    segs[k][1][i] = [clean(segs[k][1][i][0] + 'X' * 90, delims)]
         desc['faults'].append(kind)
     # a second interchange (the same document once more) now and then
     lines = []
